@@ -35,13 +35,37 @@ func ctxName(c parser.ContextType) string {
 	return fmt.Sprint(int(c))
 }
 
+const dropMarker = "drop_me"
+
+// sprinkleDropMarkers inserts marker statements (`drop_me;`) into the statement lists of prog.
+func sprinkleDropMarkers(prog *gen.Node, r *rand.Rand) int {
+	n := 0
+	add := func(list []*gen.Node) []*gen.Node {
+		var out []*gen.Node
+		for _, s := range list {
+			if r.IntN(4) == 0 {
+				out = append(out, gen.ExprStmt(gen.Id(dropMarker)))
+				n++
+			}
+			out = append(out, s)
+		}
+		return out
+	}
+	prog.Walk(func(x *gen.Node) {
+		if x.K == gen.KBlock || x.K == gen.KFuncDecl || x.K == gen.KFunc || x.K == gen.KProgram {
+			x.Kids = add(x.Kids)
+		}
+	})
+	return n
+}
+
 var nestedSources = []string{"function q(){ { x } }", "{ { a } }", "f(function(){ return {a:1} })", "function q(){ {", "if (a) { function g(){ h( } }", "x", ""}
 
 // recordContexts parses src with one recording statement and one recording expression interceptor. With nestEvery > 0
 // every nestEvery-th invocation additionally builds a second parser FROM THE SAME BUILDER and runs it to completion on
 // a nesting-heavy snippet while the outer parser is in the middle of its parse (what a macro-expanding plugin does),
 // then records the outer parser's answers again: one builder builds independent parsers, so they must be unchanged.
-func recordContexts(src string, m Mode, nestEvery int, coin *rand.Rand) (obs []ctxObs, p *parser.Parser, nested int, err error) {
+func recordContexts(src string, m Mode, nestEvery int, coin *rand.Rand, drop bool) (obs []ctxObs, p *parser.Parser, nested int, err error) {
 	b := newBuilder(m)
 	depth, calls := 0, 0
 	record := func(kind string, p *parser.Parser) {
@@ -66,6 +90,12 @@ func recordContexts(src string, m Mode, nestEvery int, coin *rand.Rand) (obs []c
 	if which != 3 {
 		b.UseStatementInterceptor(func(p *parser.Parser, next func() ast.Statement) ast.Statement {
 			record("statement", p)
+			if drop && depth == 0 && p.CurrentToken.Type == token.IDENT && p.CurrentToken.Literal == dropMarker {
+				// a plugin that strips a statement (a `debugger`-like marker): the statement is parsed, so that its tokens
+				// are consumed, and nil is returned - the statement loops drop nil results
+				next()
+				return nil
+			}
 			if coin != nil && depth == 0 && coin.IntN(3) == 0 {
 				// a plugin that parses the statement itself through the public Parse*Statement API (see dispatchStatement)
 				return dispatchStatement(p)
@@ -121,11 +151,21 @@ func runC16Program(t *fw.T) {
 // deepChain nests depth brace constructs of random kinds (plain block, function declaration, function expression as a
 // call argument followed by further arguments, if / while with block bodies), with a statement before and after each
 // nested construct, so that queries are made at every depth on the way in and on the way out.
-func deepChain(r *rand.Rand, depth int) *gen.Node {
+func deepChain(r *rand.Rand, depth int) *gen.Node { return deepChainOuter(r, depth, 0) }
+
+// deepChainOuter: the outermost outerBlocks constructs are not functions (plain blocks, if / while bodies) and the
+// construct directly inside them is a function: the outermost function sits below that many block contexts.
+func deepChainOuter(r *rand.Rand, depth, outerBlocks int) *gen.Node {
 	body := []*gen.Node{gen.ExprStmt(gen.Call(gen.Id("leaf")))}
 	for i := 0; i < depth; i++ {
 		var wrap *gen.Node
-		switch r.IntN(6) {
+		kind := r.IntN(6)
+		if outerBlocks > 0 && i >= depth-outerBlocks {
+			kind = []int{0, 3, 4}[r.IntN(3)]
+		} else if outerBlocks > 0 && i == depth-outerBlocks-1 {
+			kind = []int{1, 2, 5}[r.IntN(3)]
+		}
+		switch kind {
 		case 0:
 			wrap = &gen.Node{K: gen.KBlock, Kids: body}
 		case 1:
@@ -150,10 +190,22 @@ func runC16Deep(t *fw.T) {
 	if t.Thorough() && r.IntN(4) == 0 {
 		depth = 100 + r.IntN(400)
 	}
+	if r.IntN(3) == 0 {
+		// the outermost function lies below 40..200 nested blocks
+		outer := 40 + r.IntN(160)
+		t.Feature("blocks around the outermost function", fmt.Sprint(outer/20*20))
+		checkContexts(t, r, deepChainOuter(r, outer+1+r.IntN(12), outer), "deep-nesting")
+		return
+	}
 	checkContexts(t, r, deepChain(r, depth), "deep-nesting")
 }
 
 func checkContexts(t *fw.T, r *rand.Rand, prog *gen.Node, stratum string) {
+	// a third of the programs contain marker statements that a statement interceptor strips (returns nil for)
+	drop := r.IntN(3) == 0
+	if drop {
+		t.Count("statements_stripped_by_an_interceptor", sprinkleDropMarkers(prog, r))
+	}
 	l := stdLayouts[r.IntN(len(stdLayouts))]
 	rd := gen.Render(prog, r, l.E, l.L)
 	byPos := map[token.Position]*gen.Tok{}
@@ -180,7 +232,7 @@ func checkContexts(t *fw.T, r *rand.Rand, prog *gen.Node, stratum string) {
 			coin = rand.New(rand.NewPCG(r.Uint64(), 16))
 			t.Count("parses_with_interceptors_that_use_the_public_parse_API", 1)
 		}
-		if !t.Guard("parse with recording interceptors", wit, func() { obs, p, nested, err = recordContexts(rd.Src, m, nestEvery, coin) }) {
+		if !t.Guard("parse with recording interceptors", wit, func() { obs, p, nested, err = recordContexts(rd.Src, m, nestEvery, coin, drop) }) {
 			return
 		}
 		t.Count("nested_parses_by_a_second_parser_of_the_same_builder", nested)
@@ -259,10 +311,27 @@ func runC16Malformed(t *fw.T) {
 	}
 	for _, m := range AllModes {
 		var p *parser.Parser
-		ok := t.Guard("parse", func() map[string]any { return map[string]any{"input": src} }, func() {
-			p = newBuilder(m).Build(src)
+		// half of the parses run with pass-through interceptors installed (one of them strips marker statements): the
+		// final state must not depend on who wraps the parse functions
+		withIC := r.IntN(2) == 0
+		ok := t.Guard("parse", func() map[string]any { return map[string]any{"input": src, "interceptors": withIC} }, func() {
+			b := newBuilder(m)
+			if withIC {
+				b.UseStatementInterceptor(func(p *parser.Parser, next func() ast.Statement) ast.Statement {
+					st := next()
+					if p.CurrentToken.Type == token.SEMICOLON && len(src)%3 == 0 {
+						return nil
+					}
+					return st
+				})
+				b.UseExpressionInterceptor(func(p *parser.Parser, next func() ast.Expression) ast.Expression { return next() })
+			}
+			p = b.Build(src)
 			p.ParseProgram()
 		})
+		if withIC {
+			t.Count("final_states_checked_with_interceptors_installed", 1)
+		}
 		if !ok {
 			return
 		}
